@@ -57,6 +57,13 @@ func GenesisForProfile(profile string, hs uint64) GenesisCfg {
 		p.Baseline = sdk.NewInt64Coin(Denom, 0)
 		cfg.NodeParams = &p
 	}
+	if profile == "staking" && hs%4 == 3 {
+		// a quarter of the staking histories run with the capacity threshold of the super role configured above its
+		// 10 GiB default (the generator scales pledges and withdrawals accordingly)
+		p := DefaultNodeParams(Denom)
+		p.VstorageThreshold = 20 << 30
+		cfg.NodeParams = &p
+	}
 	if profile == "faults" || profile == "genesis" {
 		p := DefaultNodeParams(Denom)
 		p.FishmenInfo = MakeAccount("a1").Addr.String() + "," + MakeAccount("a2").Addr.String()
